@@ -26,6 +26,7 @@ type Sim struct {
 
 	mu      sync.Mutex
 	used    map[int64]struct{}
+	resN    uint64
 	seq     uint64
 	h       hash.Hash
 	keep    bool
@@ -64,6 +65,13 @@ func (s *Sim) reserveLocked(at time.Duration) time.Duration {
 	if at <= now {
 		at = now + 1
 	}
+	// Deterministic sub-microsecond jitter: timers the code under test starts
+	// (tickers, deadlines) fire at "some earlier environment instant + a round
+	// duration". Plan latencies are whole microseconds, so without jitter such
+	// a timer often lands exactly on a later environment instant, and synctest
+	// randomises the order of timers that share an instant.
+	s.resN++
+	at += time.Duration((s.resN * 2654435761 >> 5) % 977)
 	for {
 		if _, taken := s.used[int64(at)]; !taken {
 			break
@@ -92,6 +100,13 @@ func (s *Sim) AtAbs(at time.Duration, f func()) time.Duration {
 	at = s.Reserve(at)
 	time.AfterFunc(at-time.Since(s.start), f)
 	return at
+}
+
+// Pause blocks the calling goroutine until a fresh unique instant: everything
+// that is runnable now runs until it blocks before the caller continues.
+func (s *Sim) Pause() {
+	at := s.Reserve(s.Now() + 1)
+	time.Sleep(at - s.Now())
 }
 
 // Seq hands out the global event sequence number used to stamp histories.
@@ -197,6 +212,16 @@ func Bubble(t *testing.T, keepLog bool, f func(s *Sim)) (leak bool, panicVal any
 			panicVal = r
 			stack = string(debug.Stack())
 		}
+	}()
+	// No garbage collection while a run executes: a GC cycle preempts whatever
+	// goroutine is running and re-queues it, which changes the order in which
+	// simultaneously runnable goroutines proceed and with it the event log
+	// (measured: 1-4 % of fbbsim runs diverged between executions before this).
+	// The memory limit keeps a runaway run from exhausting the machine.
+	old := debug.SetGCPercent(-1)
+	debug.SetMemoryLimit(6 << 30)
+	defer func() {
+		debug.SetGCPercent(old)
 	}()
 	synctest.Test(t, func(t *testing.T) {
 		f(NewSim(keepLog))
